@@ -594,6 +594,44 @@ theorem sline_any_capacity (cap : Nat) (ops : List SOp) :
 
 example : ((Sline.init 0).runOps [.putchar 0x61, .newdata [1, 2], .getline, .backspace 3]) = Sline.init 0 := by decide
 
+/-! ### `sline_avail` / `sline_newdata` at the C widths (`unsigned int` fields, `int` results) -/
+
+/- `sline_newdata` clamps to `sline_avail(sl) - 1` where `sline_avail` is `(int)(cap - len)`:
+for a buffer of 2^31 bytes or more that `int` is negative and NOTHING is inserted although
+there is room (for exactly 2^31 free bytes `avail - 1` overflows: undefined).  The wrapper
+`igris::sline::newdata(data, size_t)` narrows its size to `int` in the same way.  `_partial` =
+capacities and sizes below 2^31, where the C arithmetic is the unbounded arithmetic of
+`newdataI` (so `sline_inv`, `sline_refines_zipper`, `newdata_int_length` speak about the code);
+finding C15-newdata-2g. -/
+
+/-- below 2^31 the C widths do not matter: in every reachable state `sline_newdata`
+computed with 32-bit `unsigned` / `int` intermediates is the unbounded `newdataI`, and
+`igris::sline::newdata(data, sz)` is `newdataI` with `sz` -/
+theorem newdata_widths_partial (cap : Nat) (hcap : 1 ≤ cap) (hc : cap < 2147483648) (ops : List SOp) (d : List Byte) :
+    (∀ n : Int, ((Sline.init cap).runOps ops).newdataC d n = ((Sline.init cap).runOps ops).newdataI d n) ∧
+    (∀ sz : Nat, sz < 2147483648 →
+      ((Sline.init cap).runOps ops).newdataSz d sz = ((Sline.init cap).runOps ops).newdataI d (sz : Int)) := by
+  obtain ⟨_, h2, h3, _, _⟩ := sline_inv cap hcap ops
+  have hl : ((Sline.init cap).runOps ops).len ≤ ((Sline.init cap).runOps ops).cap := by rw [h3]; omega
+  have hc' : ((Sline.init cap).runOps ops).cap < 2147483648 := by rw [h3]; exact hc
+  refine ⟨fun n => newdataC_eq _ hl hc' d n, fun sz hsz => ?_⟩
+  unfold Sline.newdataSz
+  rw [newdataC_eq _ hl hc' d]
+  congr 1
+  unfold toInt32
+  rw [Nat.mod_eq_of_lt (by omega), if_pos hsz]
+
+example : ((Sline.init 4).newdataC [0x61, 0x62, 0x63, 0x64] 4).1.text = [0x61, 0x62, 0x63] := by decide
+
+/-- at 2^31 and beyond they do: a buffer of 2^31 + 1 bytes (the first 4 materialised), empty line,
+2 bytes offered: nothing is inserted; with exactly 2^31 free bytes `avail - 1` overflows; a size of
+2^31 passed to the C++ wrapper is a negative `int` -/
+theorem newdata_widths_witness :
+    ((⟨[0, 0, 0, 0], 2147483649, 0, 0, false⟩ : Sline).newdataC [0x61, 0x62] 2).2 = 0 ∧
+    ((⟨[0, 0, 0, 0], 2147483649, 0, 0, false⟩ : Sline).newdataI [0x61, 0x62] 2).2 = 2 ∧
+    ((⟨[0, 0, 0, 0], 2147483648, 0, 0, false⟩ : Sline).newdataC [0x61, 0x62] 2).1.fault = true ∧
+    ((Sline.init 4).newdataSz [0x61, 0x62] 2147483648).2 = 0 := by decide
+
 /-! ### the `int16_t` parameter of `vterm_automate_newdata` -/
 
 /- The property speaks of "every byte sequence typed".  igris' own callers hold
